@@ -76,20 +76,29 @@ def repair_phase(ctx, csim, files, magic, dirs):
     viol, samples = [], []
     evaluations = 0
     repair_stats = {}
-    for dname, d in dirs:
+    modes = [None, 0o664, 0o666, 0o660, 0o600, 0o640, 0o644]
+    mode_counts = {}
+    for di, (dname, d) in enumerate(dirs):
         os.makedirs(d, exist_ok=True)
         rpaths, rmeta = [], []
-        for name, content in files + [("absent", None), ("absent-dir/shm", None)]:
+        for fi, (name, content) in enumerate(files + [("absent", None), ("absent-dir/shm", None)]):
             p = os.path.join(d, "r-" + name)
             if content is not None:
                 with open(p, "wb") as f:
                     f.write(content)
+                # permission bits of the pre-existing file: whatever the previous owner's umask left
+                m = modes[(fi + di + ctx.seed) % len(modes)]
+                if m is not None:
+                    os.chmod(p, m)
+                mode_counts["%03o" % m if m is not None else "default"] = mode_counts.get("%03o" % m if m is not None else "default", 0) + 1
                 acc, cls = protocol.expected_open(content, magic)
             else:
                 acc, cls = set(), "absent"
             rpaths.append(p)
             rmeta.append((name, content, acc, cls))
-        pr = run_list(ctx, csim, ["repair", "--list", "{list}"], rpaths)
+        # the daemon's own file-creation mask differs per directory
+        um = [0o022, 0o002, 0o000, 0o077][(di + ctx.seed) % 4]
+        pr = run_list(ctx, csim, ["repair", "--list", "{list}"], rpaths, umask=um)
         lines = pr.stdout.splitlines()
         if pr.returncode != 0 or len(lines) != len(rpaths):
             rp = os.path.join(ctx.replay_dir, "C16-repair-crash-%s-%d.txt" % (dname, ctx.seed))
@@ -132,13 +141,77 @@ def repair_phase(ctx, csim, files, magic, dirs):
                 ok = int(kv["len"]) == 72 and dec is not None and all(dec[k] == v for k, v in want.items()) and dec["size"] == 72 and dec["version"] != 0 and dec["generation"] not in (0,) and dec["generation"] % 2 == 0
                 if not ok:
                     viol.append({"sig": "recreated-file-layout", "detail": "[%s] file re-created over %s is %s bytes and decodes to %s, expected 72 bytes holding %s" % (dname, name, kv["len"], dec, want), "replay": keep()})
+        st["daemon_umask"] = "%03o" % um
         repair_stats[dname] = st
         if len(samples) < 5:
             samples.append({"repair_dir": dname, "line": lines[16][:300]})
+    repair_stats["preexisting_file_modes"] = mode_counts
     return viol, repair_stats, evaluations, samples
 
 
-def run_list(ctx, tool, mode_args, paths, env=None, wrap=None, timeout=900):
+def open_stress(ctx, csim, cdrv, paths, many, valid, simultaneous=200, tag="C16"):
+    """Failed (and successful) opens leave nothing behind, and what one context holds does not limit
+    the next: (1) every path opened 100 times under a descriptor limit of 64; (2) the paths of `many`
+    opened more often than the kernel allows mappings per process, through both libraries; (3)
+    `simultaneous` contexts held at once by a process without CAP_IPC_LOCK and 64 KiB of lockable
+    memory. After each, a valid segment must still open and read. Returns (violations, stats, evaluations)."""
+    viol = []
+    evaluations = 0
+    ps = run_list(ctx, csim, ["openstress", "--list", "{list}", "--valid", valid, "--simultaneous", str(simultaneous)], paths)
+    stress_lines = [l for l in ps.stdout.splitlines() if not l.startswith("SIMULTANEOUS")]
+    sim = [l for l in ps.stdout.splitlines() if l.startswith("SIMULTANEOUS")]
+    stress = {"files": len(stress_lines), "opens_each": 100, "descriptor_limit": 64}
+    if ps.returncode != 0 or not stress_lines:
+        viol.append({"sig": "openstress-crash", "detail": "repeated opens exited %d: %s" % (ps.returncode, ps.stderr[-300:]), "replay": ""})
+
+    def judge(lines, n, what):
+        nonlocal evaluations
+        for ln in lines:
+            evaluations += 1
+            f = [x.strip() for x in ln.split("|")]
+            if f[1].split("=", 1)[1] != f[2].split("=", 1)[1] or not f[-1].endswith("OPENED"):
+                rp = os.path.join(ctx.replay_dir, "%s-openstress-%s.bin" % (tag, os.path.basename(f[0])))
+                if os.path.isfile(f[0]):
+                    shutil.copy(f[0], rp)
+                viol.append({"sig": "failed-opens-exhaust-" + what, "detail": "opening %s up to %d times in one process: first outcome %s, later outcome %s, %s; a valid segment then: %s" % (os.path.basename(f[0]), n, f[1], f[2], " ".join(f[3:-1]), f[-1]), "replay": rp})
+    judge(stress_lines, 100, "descriptors")
+    for ln in sim:
+        kv = dict(t.split("=", 1) for t in ln.split()[1:])
+        stress["simultaneous_contexts"] = int(kv["held"])
+        stress["simultaneous_unprivileged"] = kv["unprivileged"] == "1"
+        evaluations += 1
+        if kv["held"] != kv["asked"]:
+            viol.append({"sig": "contexts-limit-each-other", "detail": "a process without CAP_IPC_LOCK (RLIMIT_MEMLOCK 64 KiB) holding contexts on one valid segment: %s of %s opened, then %s" % (kv["held"], kv["asked"], kv["first_error"]), "replay": ""})
+    try:
+        max_maps = int(open("/proc/sys/vm/max_map_count").read())
+    except (OSError, ValueError):
+        max_maps = 0
+    if many and 0 < max_maps <= 300000:
+        n = max_maps + 2000
+        pm = run_list(ctx, csim, ["openstress", "--list", "{list}", "--valid", valid, "--repeat", str(n)], many)
+        lines = pm.stdout.splitlines()
+        if pm.returncode != 0 or not lines:
+            viol.append({"sig": "openstress-crash", "detail": "%d opens per file exited %d: %s" % (n, pm.returncode, pm.stderr[-300:]), "replay": ""})
+        judge(lines, n, "mappings")
+        stress["opens_each_beyond_max_map_count"] = n
+        stress["files_beyond_max_map_count"] = len(lines)
+        clines = []
+        for p in (many if cdrv else []):
+            pc = subprocess.run([cdrv, "openmany", p, valid, str(n)], stdout=subprocess.PIPE, stderr=subprocess.PIPE, text=True, timeout=900,
+                                env=dict(ctx.env, ASAN_OPTIONS="halt_on_error=1:detect_leaks=0", UBSAN_OPTIONS="halt_on_error=1"))
+            if pc.returncode != 0 or not pc.stdout.strip():
+                viol.append({"sig": "openstress-crash", "detail": "C library: %d opens of %s exited %d: %s" % (n, os.path.basename(p), pc.returncode, pc.stderr[-300:]), "replay": ""})
+                continue
+            clines.append(pc.stdout.strip().splitlines()[-1])
+        judge(clines, n, "mappings-c-library")
+        if cdrv:
+            stress["files_beyond_max_map_count_c_library"] = len(clines)
+    elif many:
+        stress["beyond_max_map_count"] = "skipped: vm.max_map_count = %d" % max_maps
+    return viol, stress, evaluations
+
+
+def run_list(ctx, tool, mode_args, paths, env=None, wrap=None, timeout=900, umask=-1):
     lst = os.path.join(ctx.tmp, "list-%d.txt" % len(os.listdir(ctx.tmp)))
     with open(lst, "w") as f:
         f.write("\n".join(paths) + "\n")
@@ -146,7 +219,7 @@ def run_list(ctx, tool, mode_args, paths, env=None, wrap=None, timeout=900):
     e = dict(ctx.env)
     if env:
         e.update(env)
-    p = subprocess.run(cmd, stdout=subprocess.PIPE, stderr=subprocess.PIPE, text=True, timeout=timeout, env=e)
+    p = subprocess.run(cmd, stdout=subprocess.PIPE, stderr=subprocess.PIPE, text=True, timeout=timeout, env=e, umask=umask)
     return p
 
 
@@ -158,6 +231,16 @@ def outcome_ok(got, accepted):
     return False
 
 
+def real_magic(ctx, csim):
+    """The magic number as the real writer lays it down (C17 checks it against the document)."""
+    ref = os.path.join(ctx.tmp, "layout-magic.txt")
+    subprocess.run([csim, "layout", "--seed", "1", "--count", "1", "--dump", ref], check=True, timeout=60)
+    magic = bytes.fromhex(open(ref).read().split()[-1])[:8]
+    if magic not in protocol.magic_readings().values():
+        raise Inconclusive("the writer's magic bytes %s match no reading of the documented magic (see C17)" % magic.hex())
+    return magic
+
+
 def run(ctx):
     q = ctx.quick()
     rng = random.Random(ctx.seed)
@@ -165,11 +248,7 @@ def run(ctx):
     cdrv = client.build_cdriver(ctx, sanitize=True)
     files = corpus(rng, q)
     # The magic number as the real writer lays it down (C17 checks it against the document).
-    ref = os.path.join(ctx.tmp, "layout.txt")
-    subprocess.run([csim, "layout", "--seed", "1", "--count", "1", "--dump", ref], check=True, timeout=60)
-    magic = bytes.fromhex(open(ref).read().split()[-1])[:8]
-    if magic not in protocol.magic_readings().values():
-        raise Inconclusive("the writer's magic bytes %s match no reading of the documented magic (see C17)" % magic.hex())
+    magic = real_magic(ctx, csim)
     viol = []
     matrix = {}
     dirs = [("tmpfs", "/dev/shm/cbverif-c16-%d" % os.getpid()), ("disk", "/var/tmp/cbverif-c16-%d" % os.getpid())]
@@ -261,19 +340,11 @@ def run(ctx):
                 samples.append({"file": name, "class": cls, "answers": per_api})
 
         # ---------------------------------------------------------------- failed opens leave nothing behind
-        ps = run_list(ctx, csim, ["openstress", "--list", "{list}", "--valid", os.path.join(d0, "trunc-72")], [p for p in paths if os.path.basename(p) != "trunc-72"])
-        stress_lines = ps.stdout.splitlines()
-        stress = {"files": len(stress_lines), "opens_each": 100, "descriptor_limit": 64}
-        if ps.returncode != 0 or not stress_lines:
-            viol.append({"sig": "openstress-crash", "detail": "repeated opens exited %d: %s" % (ps.returncode, ps.stderr[-300:]), "replay": ""})
-        for ln in stress_lines:
-            evaluations += 1
-            f = [x.strip() for x in ln.split("|")]
-            if f[1].split("=", 1)[1] != f[2].split("=", 1)[1] or not f[4].endswith("OPENED"):
-                rp = os.path.join(ctx.replay_dir, "C16-openstress-%s.bin" % os.path.basename(f[0]))
-                if os.path.isfile(f[0]):
-                    shutil.copy(f[0], rp)
-                viol.append({"sig": "failed-opens-exhaust-descriptors", "detail": "opening %s 100 times in one process (descriptor limit 64): first outcome %s, last outcome %s, %s; a valid segment then: %s" % (os.path.basename(f[0]), f[1], f[2], f[3], f[4]), "replay": rp})
+        many = [p for p in paths if os.path.basename(p) in (("size-71", "size-16", "ver1-gen0", "trunc-00", "trunc-72", "missing", "magic-byte0-flipped") if q else
+                                                             ("size-71", "size-16", "size-17", "size-56", "ver1-gen0", "ver0-gen2", "trunc-00", "trunc-15", "trunc-16", "trunc-40", "trunc-72", "missing", "a-directory", "magic-byte0-flipped", "all-zero-72", "size-4096", "symlink-to-valid"))]
+        sviol, stress, sevals = open_stress(ctx, csim, cdrv, [p for p in paths if os.path.basename(p) != "trunc-72"], many, os.path.join(d0, "trunc-72"))
+        viol += sviol
+        evaluations += sevals
 
         # ---------------------------------------------------------------- repair
         rviol, repair_stats, revals, rsamples = repair_phase(ctx, csim, files, magic, dirs)
